@@ -28,6 +28,10 @@ def cases(tier, seed):
             yield customs.gen_case(r)
             continue
         F, R = c09.gen_pair(r)
+        planted = None
+        if i % 5 == 2:
+            # directed: the file holds a node and a sibling called like the writer's scratch name for it; the node is replaced
+            planted = c09.plant_scratch_pair(r, F, R)
         T1 = gen.gen_tree(r, rootname="R1", maxdepth=2, md=0.5, classes=["Array", "Array", "Node", "PointList", "PointListArray"])
         X = gen.gen_tree(r, rootname="X0", maxdepth=2, odd=0.05)
         trees = {"F": F, "R": R, "T1": T1, "X": X}
@@ -40,7 +44,14 @@ def cases(tier, seed):
             steps.append({"do": "session", "program": r.choice(["emdfile", "py4DSTEM", "prog é", ""]),
                           "user": r.choice(["", "alice", "Bob B.", "数据"])})
         first = True
-        for _ in range(r.choice([1, 2, 3, 4, 5])):
+        if planted is not None:
+            for st in ({"do": "save", "path": "A", "src": "F", "target": [], "mode": "w", "tree": True, "emdpath": None},
+                       {"do": "save", "path": "A", "src": "R", "target": [], "mode": r.choice(["ao", "appendover"]), "tree": True, "emdpath": None}):
+                steps.append(st)
+                steps.append({"do": "validate", "path": "A", "legit": legit})
+                steps.append({"do": "info", "path": "A"})
+            first = False
+        for _ in range(r.choice([1, 2, 3, 4, 5]) if planted is None else r.choice([0, 1])):
             mode = r.choice(["w", "o"]) if first else r.choice(["a", "ao", "a", "ao", "o", "append", "appendover"])
             k = r.random()
             if k < 0.25:
